@@ -58,8 +58,10 @@ def runLine (s : St) : String :=
 /-- codes within one unit of `f·65536` (the precision the property grants) -/
 def codeAlts (f : Rat) : List Int :=
   let lo := (f * 65536).floor
+  -- a code of 0 means "nothing cut" to the consumers (polyline::part::points): a non-zero fraction needs a
+  -- non-zero code
   ([lo - 1, lo, lo + 1, lo + 2].filter fun c =>
-    0 ≤ c ∧ c ≤ 65535 ∧ (c : Rat) - f * 65536 ≤ 1 ∧ f * 65536 - (c : Rat) ≤ 1)
+    0 ≤ c ∧ c ≤ 65535 ∧ (c : Rat) - f * 65536 ≤ 1 ∧ f * 65536 - (c : Rat) ≤ 1 ∧ (f = 0 ∨ 1 ≤ c))
 
 def codeR (c : Int) : String :=
   if c < 0 then s!"code={c} real=-" else s!"code={c} real={Dyadic.text (real c)}"
